@@ -382,19 +382,28 @@ fn do_like(f: &[&str]) -> String {
     // like <xpattern> <xtext>: the six built-in Like impls on (text, pattern), next to the answer of the regex crate
     // itself (compiled here, independently of the crate under test): match / nomatch / invalid
     use assert_struct::Like;
-    let pat = unhex_s(f[1]);
+    // the pattern is handed over in a buffer that is REUSED from one case to the next (a table-driven loop that edits one String in
+    // place, a line buffer): same address, often the same length, other contents
+    thread_local! { static PATBUF: std::cell::RefCell<String> = std::cell::RefCell::new(String::with_capacity(1 << 16)); }
+    let pat_owned = unhex_s(f[1]);
     let text = unhex_s(f[2]);
+    PATBUF.with(|b| { let mut b = b.borrow_mut(); b.clear(); b.push_str(&pat_owned); });
+    PATBUF.with(|b| do_like_with(&b.borrow(), &text))
+}
+#[cfg(feature = "regex")]
+fn do_like_with(pat: &String, text: &String) -> String {
+    use assert_struct::Like;
     let oracle = match regex::Regex::new(&pat) {
         Ok(re) => if re.is_match(&text) { "match" } else { "nomatch" },
         Err(_) => "invalid",
     };
     let s: String = text.clone();
-    let r: &str = &text;
+    let r: &str = text;
     let mut out = Vec::new();
     out.push(<String as Like<&str>>::like(&s, &pat.as_str()));
-    out.push(<String as Like<String>>::like(&s, &pat));
+    out.push(<String as Like<String>>::like(&s, pat));
     out.push(<&str as Like<&str>>::like(&r, &pat.as_str()));
-    out.push(<&str as Like<String>>::like(&r, &pat));
+    out.push(<&str as Like<String>>::like(&r, pat));
     if let Ok(re) = assert_struct::__macro_support::Regex::new(&pat) {
         out.push(<String as Like<assert_struct::__macro_support::Regex>>::like(&s, &re));
         out.push(<&str as Like<assert_struct::__macro_support::Regex>>::like(&r, &re));
@@ -550,6 +559,15 @@ fn main() {
                 if f[2] != "none" {
                     std::fs::write(&p, unhex(f[2])).unwrap();
                 }
+                "ok".into()
+            }
+            "c17link" => {
+                // c17link <xlink> <xtarget>: (re)create a symbolic link under RT_TMP/c17 (target relative to the link's directory)
+                let p = c17_dir().join(unhex_s(f[1]));
+                std::fs::create_dir_all(p.parent().unwrap()).unwrap();
+                let _ = std::fs::remove_file(&p);
+                #[cfg(unix)]
+                std::os::unix::fs::symlink(unhex_s(f[2]), &p).unwrap();
                 "ok".into()
             }
             "fsclear" => {
